@@ -8,6 +8,8 @@ package main
 
 import (
 	"fmt"
+	"go/constant"
+	"go/token"
 	"go/types"
 	"strings"
 
@@ -28,6 +30,7 @@ func runC07(c *Ctx, pr *PropertyRun) {
 	pr.Assumptions = append(pr.Assumptions, "vcard.Card.Get is modelled as presence atom + field with an opaque value", "string predicates are independent atoms (their mutual implications are not needed by the statement)")
 	pr.Trusted = append(pr.Trusted, "golang.org/x/tools/go/ssa v0.29.0")
 
+	limitProvenanceRule(c, pr)
 	matchErrTrue := false
 	match := NewRule("C07", "C07.match", "decision tables of carddav.Match and of its per-filter and per-text-match helpers equal the reference evaluator of RFC 6352 §10.5 as quoted in the statement; each match type asks the right predicate with (value, text) in the right order (E2, compositional)")
 	match.Exhaustive = true
@@ -923,4 +926,93 @@ func c07LayerText(c *Ctx, tmFn *ssa.Function) DTXSpec {
 			return []string{map[bool]string{true: "true", false: "false"}[ok]}, true
 		},
 	}
+}
+
+// limitProvenanceRule: the number of results Filter stops at is made of the
+// query's Limit and the length of the input only. The tables of C07.filter
+// are extracted for short lists; a numeric constant on the way to that bound
+// (a cap on what is reserved that is also used as the limit) is invisible to
+// them and cuts long results short.
+func limitProvenanceRule(c *Ctx, pr *PropertyRun) {
+	p := c.P
+	r := NewRule("C07", "C07.limit-provenance", "every integer compared in carddav.Filter that derives from query.Limit is made of Limit, lengths and the constant 0 only — no other numeric constant reaches the bound the loop stops at (E4 backward slice)")
+	pr.Rules = append(pr.Rules, r)
+	fn := p.MustFunc(r, pkgCarddav, "Filter")
+	if fn == nil {
+		return
+	}
+	isLimitLoad := func(v ssa.Value) bool {
+		ld, ok := v.(*ssa.UnOp)
+		if !ok || ld.Op != token.MUL {
+			return false
+		}
+		fa, ok := ld.X.(*ssa.FieldAddr)
+		if !ok {
+			return false
+		}
+		st, ok := fa.X.Type().(*types.Pointer).Elem().Underlying().(*types.Struct)
+		return ok && st.Field(fa.Field).Name() == "Limit"
+	}
+	type leafset struct {
+		limit  bool
+		consts []string
+	}
+	var slice func(v ssa.Value, ls *leafset, seen map[ssa.Value]bool, depth int)
+	slice = func(v ssa.Value, ls *leafset, seen map[ssa.Value]bool, depth int) {
+		if v == nil || seen[v] || depth > 8 {
+			return
+		}
+		seen[v] = true
+		switch x := v.(type) {
+		case *ssa.Const:
+			if x.Value != nil && x.Value.Kind() == constant.Int {
+				if n, ok := constant.Int64Val(x.Value); ok && n != 0 {
+					ls.consts = append(ls.consts, x.Value.String())
+				}
+			}
+		case *ssa.Phi:
+			for _, e := range x.Edges {
+				slice(e, ls, seen, depth+1)
+			}
+		case *ssa.Convert:
+			slice(x.X, ls, seen, depth+1)
+		case *ssa.ChangeType:
+			slice(x.X, ls, seen, depth+1)
+		case *ssa.Call:
+			if b, ok := x.Common().Value.(*ssa.Builtin); ok && (b.Name() == "min" || b.Name() == "max") {
+				for _, a := range x.Common().Args {
+					slice(a, ls, seen, depth+1)
+				}
+			}
+		default:
+			if isLimitLoad(v) {
+				ls.limit = true
+			}
+		}
+	}
+	eachInstr(fn, func(_ *ssa.BasicBlock, in ssa.Instruction) {
+		bo, ok := in.(*ssa.BinOp)
+		if !ok {
+			return
+		}
+		switch bo.Op {
+		case token.LSS, token.LEQ, token.GTR, token.GEQ, token.EQL, token.NEQ:
+		default:
+			return
+		}
+		for _, side := range []ssa.Value{bo.X, bo.Y} {
+			ls := &leafset{}
+			slice(side, ls, map[ssa.Value]bool{}, 0)
+			if !ls.limit {
+				continue
+			}
+			r.Role("limit-comparison")
+			ok := len(ls.consts) == 0
+			r.Ob(ok)
+			if !ok {
+				r.Violation("limit-constant|"+fnKey(fn), p.instrPos(bo), fmt.Sprintf("%s compares a value that derives from query.Limit and also from the numeric constant(s) %s: the number of results the loop stops at is no longer min(Limit, number of matches) for inputs beyond that constant (the decision tables are extracted for short lists and cannot see it)", fnKey(fn), strings.Join(ls.consts, ", ")), nil)
+			}
+		}
+	})
+	r.RequireRole("limit-comparison")
 }
